@@ -1140,6 +1140,7 @@ void SZ_compress_args_int64_withinRange(unsigned char** newByteData, int64_t *or
 	tdps->isLossless = 0;
 	//tdps->exactByteSize = 4;
 	tdps->exactDataNum = 1;
+	tdps->dataTypeSize = sizeof(int64_t); //it goes into the flag byte of the stream
 	tdps->exactDataBytes_size = 8;
 
 	int64_t value = oriData[0];
